@@ -62,6 +62,8 @@ type call struct {
 	init     int
 	nseq     int
 	flag     bool
+	// when set, the sequences are written as these expressions (variables) instead of literals
+	lit1, lit2 string
 }
 
 type fspec struct {
@@ -98,6 +100,13 @@ var fspecs = []*fspec{
 	{lisp: "nsubstitute-if", coq: "FNsubstituteIf", pred: true, newv: true, hasCount: true, hasFE: true, destr: true, result: "seq", weight: 3},
 	{lisp: "remove-duplicates", coq: "FRemoveDuplicates", hasTest: true, hasFE: true, result: "seq", weight: 10},
 	{lisp: "delete-duplicates", coq: "FDeleteDuplicates", hasTest: true, hasFE: true, destr: true, result: "seq", weight: 4},
+	{lisp: "find-if-not", coq: "FFindIfNot", pred: true, hasFE: true, result: "elt", weight: 2},
+	{lisp: "position-if-not", coq: "FPositionIfNot", pred: true, hasFE: true, result: "index", weight: 2},
+	{lisp: "count-if-not", coq: "FCountIfNot", pred: true, hasFE: true, result: "index", weight: 1},
+	{lisp: "remove-if-not", coq: "FRemoveIfNot", pred: true, hasCount: true, hasFE: true, result: "seq", weight: 3},
+	{lisp: "delete-if-not", coq: "FDeleteIfNot", pred: true, hasCount: true, hasFE: true, destr: true, result: "seq", weight: 1},
+	{lisp: "substitute-if-not", coq: "FSubstituteIfNot", pred: true, newv: true, hasCount: true, hasFE: true, result: "seq", weight: 1},
+	{lisp: "nsubstitute-if-not", coq: "FNsubstituteIfNot", pred: true, newv: true, hasCount: true, hasFE: true, destr: true, result: "seq", weight: 1},
 	{lisp: "member", coq: "FMember", item: true, hasTest: true, result: "seq", weight: 5, listOnly: true, family: "member"},
 	{lisp: "member-if", coq: "FMemberIf", pred: true, result: "seq", weight: 3, listOnly: true, family: "member"},
 	{lisp: "assoc", coq: "FAssoc", item: true, hasTest: true, result: "pair", weight: 5, listOnly: true, family: "assoc", layout: "assoc"},
@@ -322,6 +331,9 @@ func (c *call) render(form int) string {
 	}
 	s1 := seqLit(c.s1, form, f.destr)
 	s2 := seqLit(c.s2, form, f.destr)
+	if c.lit1 != "" {
+		s1, s2 = c.lit1, c.lit2
+	}
 	switch f.layout {
 	case "assoc":
 		if f.item {
@@ -909,6 +921,18 @@ func genCall(r *common.Rng, f *fspec, maxLen int) *call {
 	return c
 }
 
+func sameInts(a, b []int) bool {
+	if len(a) != len(b) {
+		return false
+	}
+	for i := range a {
+		if a[i] != b[i] {
+			return false
+		}
+	}
+	return true
+}
+
 func twoSeq(c *call) bool {
 	switch c.fn.family {
 	case "search", "mismatch", "replace", "merge", "set", "concat":
@@ -958,6 +982,33 @@ func Run(ctx *common.Ctx) {
 			obs = append(obs, fmt.Sprintf("(%s, %s)", formNames[form], r))
 			shown[src] = common.ShowOutcome(o)
 			ctx.Meta.Evaluations++
+		}
+		// a function that is not destructive must leave its arguments alone
+		if !f.destr && f.layout != "assoc" && !(f.lisp == "reduce" && c.key != "") {
+			for _, form := range []int{asList, asVec} {
+				if f.listOnly && form != asList {
+					continue
+				}
+				c.lit1, c.lit2 = "v1", "v2"
+				src := fmt.Sprintf("(let ((v1 %s) (v2 %s)) %s (list v1 v2))", seqLit(c.s1, form, true), seqLit(c.s2, form, true), c.render(form))
+				c.lit1, c.lit2 = "", ""
+				o := common.EvalTimeout(slip.NewScope(), src, 5*time.Second)
+				ctx.Meta.Evaluations++
+				if o.Err != "" {
+					continue // the call itself failed: already compared above
+				}
+				ok := false
+				if l, isList := o.Value.(slip.List); isList && len(l) == 2 {
+					a, ok1 := decodeSeq(l[0], form)
+					b, ok2 := decodeSeq(l[1], form)
+					ok = ok1 && ok2 && sameInts(a, c.s1) && sameInts(b, c.s2)
+				}
+				ctx.Hist("frame-checks")
+				if !ok {
+					ctx.Violate("a non-destructive sequence function changed its argument", src, common.ShowOutcome(o),
+						fmt.Sprintf("(%s %s)", seqLit(c.s1, form, false), seqLit(c.s2, form, false)))
+				}
+			}
 		}
 		g := c.gallina()
 		terms = append(terms, fmt.Sprintf("(%s,\n    [%s])", g, strings.Join(obs, "; ")))
